@@ -447,7 +447,7 @@ MPI_JOBS = [
 PLAN["C04"] = dict(
     functions=["hep::mpi_plain", "hep::mpi_vegas", "hep::mpi_multi_channel", "hep::allreduce_result", "hep::mpi_callback<Checkpoint>",
                "hep::discard_before", "hep::discard_after", "hep::random_number_usage", "hep::mpi_datatype"] + DRIVER_FUNCS,
-    bounds={"quick": "world size P<=3, 1-2 iterations, total calls per iteration in {0..4} (incl. calls < P and calls not divisible by P), d=1, B=2, C=2; "
+    bounds={"quick": "world size P<=4, 1-3 iterations, total calls per iteration in {0..5} (incl. calls < P and calls not divisible by P), d=1, B=2, C=2; "
                      "all random numbers / integrand values / grids / weights symbolic; serial run and all ranks on the same symbolic stream",
             "thorough": "P<=4, up to 3 iterations, 5 calls"},
     outside="larger P (the split itself is proved for all P in C16); real mpirun; arrival and reduction order inside a collective (the shim sums in rank "
